@@ -153,10 +153,21 @@ func (m *Mem) Read(k *kindInfo, ref, idx *Term, upto int) *Term {
 	curID := 0
 	if cur != nil {
 		curID = cur.id
+		ref = m.underCur(cur, ref, 0)
+		idx = m.underCur(cur, idx, 0)
 	}
 	key := fmt.Sprintf("%s|%d|%d|%d|%d", k.name, ref.id, idx.id, upto, curID)
 	if t, ok := m.cache[key]; ok {
 		return t
+	}
+	// a choice between arrays: read each alternative (each resolves syntactically, and
+	// after an append both alternatives hold the same contents, so the ite collapses)
+	if ref.op == "ite" && refLeafCount(ref, 0) > 0 {
+		a := m.Read(k, ref.args[1], idx, upto)
+		b := m.Read(k, ref.args[2], idx, upto)
+		res := m.underCur(cur, Ite(ref.args[0], a, b), 0)
+		m.cache[key] = res
+		return res
 	}
 	type pend struct {
 		cond *Term
@@ -251,6 +262,7 @@ func (m *Mem) Read(k *kindInfo, ref, idx *Term, upto int) *Term {
 	for i := len(chain) - 1; i >= 0; i-- {
 		res = Ite(chain[i].cond, chain[i].val, res)
 	}
+	res = m.underCur(cur, res, 0)
 	m.cache[key] = res
 	return res
 }
@@ -648,27 +660,83 @@ func (m *Mem) guardUnder(cur, g *Term) *Term {
 	if g == cur {
 		return True()
 	}
-	if cur.op != "and" {
-		return g
-	}
+	var curSet map[int]bool
 	in := func(x *Term) bool {
-		for _, a := range cur.args {
-			if a == x {
-				return true
+		if x == cur {
+			return true
+		}
+		if cur.op != "and" {
+			return false
+		}
+		if curSet == nil {
+			curSet = make(map[int]bool, len(cur.args))
+			for _, a := range cur.args {
+				curSet[a.id] = true
 			}
 		}
-		return false
+		return curSet[x.id]
 	}
 	if g.op == "and" {
+		// drop the conjuncts that are already part of the path condition
+		var rest []*Term
 		for _, a := range g.args {
 			if !in(a) {
-				return g
+				rest = append(rest, a)
 			}
 		}
-		return True()
+		if len(rest) == len(g.args) || (noPartialGuard && len(rest) > 0) {
+			return g
+		}
+		return And(rest...)
 	}
 	if in(g) {
 		return True()
 	}
 	return g
+}
+
+// underCur simplifies the spine of an ite-term knowing that it is used under the
+// reach condition cur: a condition all of whose conjuncts are conjuncts of cur is
+// true, one whose negation is a conjunct of cur is false.
+var noUnderCur = os.Getenv("IKEVERIF_NOUNDERCUR") != ""
+var noPartialGuard = os.Getenv("IKEVERIF_NOPARTIAL") != ""
+
+func (m *Mem) underCur(cur, t *Term, depth int) *Term {
+	if noUnderCur {
+		return t
+	}
+	if cur == nil || t.op != "ite" || depth > 6 {
+		return t
+	}
+	c := t.args[0]
+	if m.guardUnder(cur, c).IsTrue() {
+		return m.underCur(cur, t.args[1], depth+1)
+	}
+	if m.guardUnder(cur, Not(c)).IsTrue() {
+		return m.underCur(cur, t.args[2], depth+1)
+	}
+	return t
+}
+
+// refLeafCount: number of leaves if t is an ite-tree whose leaves are constants or
+// variables (plain references), at most 8; else 0.
+func refLeafCount(t *Term, depth int) int {
+	if t.op == "const" || t.op == "var" {
+		return 1
+	}
+	if t.op == "+" && len(t.args) == 2 && t.args[1].op == "const" && t.args[0].op == "var" {
+		return 1 // counter + offset
+	}
+	if t.op != "ite" || depth > 4 {
+		return 0
+	}
+	x := refLeafCount(t.args[1], depth+1)
+	if x == 0 {
+		return 0
+	}
+	y := refLeafCount(t.args[2], depth+1)
+	if y == 0 || x+y > 8 {
+		return 0
+	}
+	return x + y
 }
